@@ -53,9 +53,9 @@ def emit(rec):
         _fh.write(json.dumps(rec, default=str) + "\n")
 
 
-def mark(kind, **kw):
+def mark(k_, **kw):
     """Harness-side marker events (callbacks, task start/end...) go into the same per-process stream."""
-    rec = {"k": kind, "t0": time.monotonic_ns()}
+    rec = {"k": k_, "t0": time.monotonic_ns()}
     rec.update(kw)
     rec["t1"] = rec["t0"]
     emit(rec)
@@ -202,19 +202,48 @@ def install():
                 out.append(str(s))
         return out
 
-    def __setitem__(self, sel, value):
+    def _dims(arr, sel):
+        """Per-dimension facts of a basic selection: start, stop, length n, regular chunk size c (0 if rectilinear),
+        chunk boundaries (rectilinear only).  None if the selection is not made of slices."""
+        import numpy as np
+        if not isinstance(sel, tuple):
+            sel = (sel,)
+        if sel == (Ellipsis,) or sel == ():
+            sel = tuple(slice(None) for _ in arr.shape)
+        if len(sel) != len(arr.shape) or not all(isinstance(x, slice) for x in sel):
+            return None
+        try:
+            cs = list(arr.chunks)
+            bounds = [[] for _ in cs]
+        except NotImplementedError:
+            sizes = arr.read_chunk_sizes
+            cs = [0] * len(sizes)
+            bounds = [[0] + [int(x) for x in np.cumsum(sz)] for sz in sizes]
+        out = []
+        for sl, n, c, b in zip(sel, arr.shape, cs, bounds):
+            st, sp, step = sl.indices(n)
+            if step != 1:
+                return None
+            out.append(dict(start=int(st), stop=int(sp), n=int(n), c=int(c), bounds=b))
+        return out
+
+    def _awrite(self, sel, value, fields=None):
         t0 = time.monotonic_ns()
-        vs = list(getattr(value, "shape", ()))
+        vs = [int(x) for x in getattr(value, "shape", ())]
+        try:
+            dims = _dims(self, sel)
+        except Exception:
+            dims = None
         emit({"k": "awrite", "arr": _arr_path(self), "sel": _sel_json(sel), "vshape": vs, "rshape": _region_shape(self, sel),
-              "vdtype": str(getattr(value, "dtype", type(value).__name__)), "adtype": str(self.dtype), "t0": t0, "t1": t0})
+              "dims": dims, "vdtype": str(getattr(value, "dtype", type(value).__name__)), "adtype": str(self.dtype),
+              "t0": t0, "t1": t0, "fields": str(fields)})
+
+    def __setitem__(self, sel, value):
+        _awrite(self, sel, value)
         return osetitem(self, sel, value)
 
     def set_basic_selection(self, selection, value, *a, **kw):
-        t0 = time.monotonic_ns()
-        vs = list(getattr(value, "shape", ()))
-        emit({"k": "awrite", "arr": _arr_path(self), "sel": _sel_json(selection), "vshape": vs,
-              "rshape": _region_shape(self, selection), "vdtype": str(getattr(value, "dtype", type(value).__name__)),
-              "adtype": str(self.dtype), "t0": t0, "t1": t0, "fields": str(kw.get("fields"))})
+        _awrite(self, selection, value, kw.get("fields"))
         return osbs(self, selection, value, *a, **kw)
 
     def __getitem__(self, sel):
